@@ -30,7 +30,7 @@ ANCHORS = ['MacroBodies.py:box', 'MacroBodies.py:rpp', 'MacroBodies.py:sph',
            'MacroBodies.py:arb', 'to_surfaces_macro', 'pot_expand_surfs']
 REQUIRED_REACH = ANCHORS
 
-_PER = {'quick': 6, 'thorough': 80}
+_PER = {'quick': 6, 'thorough': 250}
 
 
 def plan(tier):
